@@ -558,7 +558,9 @@ theorem exponent_bridge (ss : List (List Int)) (pt : Shapes.PType) :
     Gen.exponentForPreconditioner ss (ptypeCode pt) = some ((Shapes.exponentForPreconditioner pt ss.length : Nat) : Int) := by
   unfold Gen.exponentForPreconditioner
   rw [shouldPreconditionDims_bridge]
-  simp [Gen.Py.count, Shapes.exponentForPreconditioner, Shapes.numPreconditioned]
+  -- arithmetic left to omega, so `2 * n`, `n * 2`, `n + n` in the source all keep this proof valid
+  simp only [Gen.Py.count, Shapes.exponentForPreconditioner, Shapes.numPreconditioned, Option.some.injEq, Int.ofNat_eq_natCast]
+  omega
 
 
 /-! ### _preconds_for_grad, skip predicates (C05), sm3 expanded shape (C12), to_pad vs Model/Devices (C13) -/
